@@ -21,9 +21,12 @@ CHECKS.update({
         "text": "spec/Scan.tla is an independent reference interpreter of the basic fragment written from the manual; mc/MC_Scan.tla is the same interpreter as an explicit state machine "
                 "(FindMatch/EnvReject/Transform/Finish), model-checked exhaustively to refine the recursive operator, to make progress and to preserve well-formedness and the prosodic tier. "
                 "TLC enumerates bounded-exhaustive strata of (rule, word) and a random sample of the full bound; every vector is replayed on the real interpreter comparing the structural "
-                "word AND the per-iteration (position found, environment verdict) sequence recorded by hooks in SubRule::apply.",
+                "word AND the per-iteration (position found, environment verdict) sequence recorded by hooks in SubRule::apply. In the other direction (tv/TV_Scan.tla) applications of "
+                "basic-fragment rules over the FULL inventory (365 cardinals, 26 features) are recorded from the real interpreter and judged by TLC against Scan!RunScanF. "
+                "Beyond the property, spec/ScanX.tla extends the reference interpreter to n-by-n substitution, deletion, metathesis and insertion (model-checked machine mc/MC_ScanX.tla, "
+                "behaviours replayed on the code); its agreement is reported in the evidence as an informational job and never decides C03.",
         "note": BASE_NOTE + " The input space of the property (~10^12 points) is covered by exhaustive strata plus seeded sampling, not completely.",
-        "technique": "TLA+ reference interpreter (Scan) + explicit machine model-checked by TLC; spec->impl replay with per-iteration event comparison",
+        "technique": "TLA+ reference interpreter (Scan) + explicit machine model-checked by TLC; spec->impl replay with per-iteration event comparison; impl->spec trace validation (TV_Scan) over the full inventory",
     },
     "C05": {
         "level": "model_checking",
